@@ -10,6 +10,7 @@ import (
 	"sync/atomic"
 	"testing"
 	"time"
+	_ "time/tzdata" // zone-typed columns must not depend on the host's zoneinfo
 
 	"github.com/ClickHouse/ch-go"
 	"github.com/ClickHouse/ch-go/proto"
@@ -94,12 +95,22 @@ type Item struct {
 	TC       ref.TableColumns
 	Exc      []ref.Exception
 	Raw      []byte
+	Zone     string // log / profileevents: zone of the time column's type ("" = plain DateTime)
 }
 
 func le(w int, v uint64) []byte {
 	b := make([]byte, 8)
 	binary.LittleEndian.PutUint64(b, v)
 	return b[:w]
+}
+
+// timeType: the type a server announces for the time column of log / profile-event blocks
+// (with the server's zone when Zone is set).
+func (it Item) timeType() string {
+	if it.Zone != "" {
+		return "DateTime('" + it.Zone + "')"
+	}
+	return "DateTime"
 }
 
 func (it Item) block() *ref.Block {
@@ -110,7 +121,7 @@ func (it Item) block() *ref.Block {
 			vt = "Int64"
 		}
 		cols := []ref.Column{
-			{Name: "host_name", T: ref.String("String")}, {Name: "current_time", T: ref.Fixed("DateTime", 4)},
+			{Name: "host_name", T: ref.String("String")}, {Name: "current_time", T: ref.Fixed(it.timeType(), 4)},
 			{Name: "thread_id", T: ref.Fixed("UInt64", 8)}, {Name: "type", T: ref.Fixed("Int8", 1)},
 			{Name: "name", T: ref.String("String")}, {Name: "value", T: ref.Fixed(vt, 8)},
 		}
@@ -125,7 +136,7 @@ func (it Item) block() *ref.Block {
 		return &ref.Block{Info: ref.BlockInfo{BucketNum: -1}, Columns: cols}
 	case "log":
 		cols := []ref.Column{
-			{Name: "event_time", T: ref.Fixed("DateTime", 4)}, {Name: "event_time_microseconds", T: ref.Fixed("UInt32", 4)},
+			{Name: "event_time", T: ref.Fixed(it.timeType(), 4)}, {Name: "event_time_microseconds", T: ref.Fixed("UInt32", 4)},
 			{Name: "host_name", T: ref.String("String")}, {Name: "query_id", T: ref.String("String")},
 			{Name: "thread_id", T: ref.Fixed("UInt64", 8)}, {Name: "priority", T: ref.Fixed("Int8", 1)},
 			{Name: "source", T: ref.String("String")}, {Name: "text", T: ref.String("String")},
